@@ -3,8 +3,10 @@ package sysim
 import (
 	"context"
 	"fmt"
+	"io"
 	"log/slog"
 	"math/rand/v2"
+	"net"
 	"net/netip"
 	"sort"
 	"strings"
@@ -21,6 +23,7 @@ import (
 	"github.com/AdguardTeam/AdGuardDNS/internal/filter"
 	"github.com/AdguardTeam/AdGuardDNS/internal/profiledb"
 	"github.com/AdguardTeam/AdGuardDNS/verif/kernel"
+	"github.com/AdguardTeam/AdGuardDNS/verif/simnet"
 	"github.com/AdguardTeam/AdGuardDNS/verif/world"
 	"github.com/miekg/dns"
 )
@@ -338,8 +341,14 @@ func runC07(s *kernel.Sim, cfg string) {
 	}
 
 	// ---- the concurrent run ----
+	if cfg == "servers" {
+		c07ThroughServers(s, w, srv, streams)
+	}
 	var wg sync.WaitGroup
 	for si := range streams {
+		if cfg == "servers" {
+			break
+		}
 		reqs := streams[si]
 		pause := rand.New(rand.NewPCG(uint64(t.Choose(1<<30, "stream-seed")), uint64(si)))
 		wg.Add(1)
@@ -371,6 +380,17 @@ func runC07(s *kernel.Sim, cfg string) {
 			return
 		}
 
+		if cfg == "servers" {
+			// The servers add and fix up the OPT record of a response; the
+			// reference is taken in front of them.
+			stripOPT(r.resp)
+			stripOPT(want)
+			if r.resp == nil && want != nil {
+				s.Failf("C07/no-response", "a request got no response under concurrency", "stream %d, %s asks %s/%d id=%d", r.stream, who, r.name, r.qtype, r.id)
+
+				return
+			}
+		}
 		got, exp := c07Describe(r.resp, false), c07Describe(want, false)
 		if got != exp {
 			kind := "response differs from the one the same request gets alone"
@@ -430,4 +450,142 @@ func ttlsOf(m *dns.Msg) (ttls []uint32) {
 	}
 
 	return ttls
+}
+
+
+func stripOPT(m *dns.Msg) {
+	if m == nil {
+		return
+	}
+	var ex []dns.RR
+	for _, rr := range m.Extra {
+		if _, ok := rr.(*dns.OPT); !ok {
+			ex = append(ex, rr)
+		}
+	}
+	m.Extra = ex
+}
+
+// c07ThroughServers runs the streams as clients of a real plain-DNS server
+// (UDP and TCP) on the simulated network, with the handler stack behind it and
+// the stack's cloner as the server's disposer: responses are released for
+// reuse by the server right after they are written.
+func c07ThroughServers(s *kernel.Sim, w *world.World, srv *agd.Server, streams [][]*c07Req) {
+	n := simnet.New(s)
+	h := w.Handlers[dnssvc.HandlerKey{Server: srv, ServerGroup: w.Group}]
+	ds := dnsserver.NewServerDNS(dnsserver.ConfigDNS{
+		ConfigBase: dnsserver.ConfigBase{
+			Name:         string(srv.Name),
+			Addr:         "198.18.0.1:53",
+			Handler:      h,
+			Disposer:     w.Cloner,
+			ListenConfig: n,
+		},
+		ReadTimeout:    2 * time.Second,
+		WriteTimeout:   2 * time.Second,
+		TCPIdleTimeout: 10 * time.Second,
+	})
+	if err := ds.Start(context.Background()); err != nil {
+		panic(err)
+	}
+	defer func() {
+		ctx, cancel := context.WithTimeout(context.Background(), 5*time.Second)
+		defer cancel()
+		_ = ds.Shutdown(ctx)
+	}()
+
+	t := s.T
+	var wg sync.WaitGroup
+	for si := range streams {
+		reqs := streams[si]
+		rng := rand.New(rand.NewPCG(uint64(t.Choose(1<<30, "stream-seed")), uint64(si)))
+		overTCP := rng.IntN(3) == 0
+		wg.Add(1)
+		go func() {
+			defer wg.Done()
+			byID := map[uint16]*c07Req{}
+			pack := func(r *c07Req) []byte {
+				req := &dns.Msg{}
+				req.Id = r.id
+				req.RecursionDesired = true
+				req.Question = []dns.Question{{Name: r.name, Qtype: r.qtype, Qclass: r.qclass}}
+				if r.prof != nil {
+					req.SetEdns0(1232, false)
+					req.IsEdns0().Option = append(req.IsEdns0().Option, &dns.EDNS0_LOCAL{Code: 65074, Data: []byte(r.prof.dev)})
+				}
+				b, err := req.Pack()
+				if err != nil {
+					panic(err)
+				}
+				byID[r.id] = r
+
+				return b
+			}
+			take := func(b []byte) {
+				m := &dns.Msg{}
+				if err := m.Unpack(b); err != nil {
+					return
+				}
+				if r := byID[m.Id]; r != nil && r.resp == nil {
+					r.resp = m
+				} else if r == nil {
+					// An ID this client never used: keep it for the report.
+					reqs[0].err = fmt.Errorf("response with foreign id %d: %s", m.Id, c07Describe(m, true))
+				}
+			}
+			pause := func() {
+				if d := []time.Duration{0, 0, 0, time.Millisecond, 20 * time.Millisecond}[rng.IntN(5)]; d > 0 {
+					time.Sleep(d)
+				}
+			}
+			local := n.ClientAddr(reqs[0].client)
+			if overTCP {
+				c, err := n.Dial("198.18.0.1:53", local)
+				if err != nil {
+					panic(err)
+				}
+				defer c.Close()
+				for _, r := range reqs {
+					pause()
+					b := pack(r)
+					_, _ = c.Write(append([]byte{byte(len(b) >> 8), byte(len(b))}, b...))
+				}
+				for range reqs {
+					_ = c.SetReadDeadline(time.Now().Add(5 * time.Second))
+					var lb [2]byte
+					if _, err = io.ReadFull(c, lb[:]); err != nil {
+						return
+					}
+					b := make([]byte, int(lb[0])<<8|int(lb[1]))
+					if _, err = io.ReadFull(c, b); err != nil {
+						return
+					}
+					take(b)
+				}
+
+				return
+			}
+			pc, err := n.DialPacket(local)
+			if err != nil {
+				panic(err)
+			}
+			defer pc.Close()
+			dst := net.UDPAddrFromAddrPort(netip.MustParseAddrPort("198.18.0.1:53"))
+			for _, r := range reqs {
+				pause()
+				_, _ = pc.WriteTo(pack(r), dst)
+			}
+			buf := make([]byte, 65535)
+			for range reqs {
+				_ = pc.SetReadDeadline(time.Now().Add(5 * time.Second))
+				k, _, rerr := pc.ReadFrom(buf)
+				if rerr != nil {
+					return
+				}
+				take(append([]byte(nil), buf[:k]...))
+			}
+		}()
+	}
+	wg.Wait()
+	s.Probe("streams-through-real-servers")
 }
